@@ -375,7 +375,7 @@ def canonNA (cfg : Cfg) (sel : SelM) : Bool :=
 def canonMask (sh : List Nat) (sel : SelM) : Idx → Bool :=
   match sel with
   | .none => fun _ => true
-  | .slice _ m => fun j => inRange j sh && m j
+  | .slice vs => fun j => inRange j sh && subMask vs j
   | .mask m => fun j => inRange j sh && m j
 
 def canon (cfg : Cfg) (sh : List Nat) (data : Idx → Val) (sel : SelM) (red : List Bool) : Result :=
@@ -424,7 +424,7 @@ theorem direct_chunk (cfg : Cfg) (sh : List Nat) (data : Idx → Val) (sel : Sel
     cellVals_sub red sh (chunkSub ch) F [j] hl f5 hv hkj
   rw [f1 j] at hsub
   cases sel with
-  | slice vs m => simp [SelM.isSlice] at hns
+  | slice vs => simp [SelM.isSlice] at hns
   | none =>
     simp only [implDirect, uStatImpl, viewShape'_chunkView, canon, canonNA, canonMask]
     rw [if_neg (by have := prod_pos_of _ f8; omega)]
@@ -451,7 +451,7 @@ theorem direct_full (cfg : Cfg) (sh : List Nat) (data : Idx → Val) (sel : SelM
     (hk : inRange k (keptShape red sh) = true) :
     (implDirect cfg data sel .none (fullView sh) red).cell k = (canon cfg sh data sel red).cell k := by
   cases sel with
-  | slice vs m => simp [SelM.isSlice] at hns
+  | slice vs => simp [SelM.isSlice] at hns
   | none =>
     simp only [implDirect, uStatImpl, viewShape'_fullView, canon, canonNA, canonMask]
     rw [if_neg (by have := prod_pos_of _ hpos; omega)]
@@ -561,5 +561,79 @@ theorem implStat_chunked_cell (cfg : Cfg) (sh : List Nat) (data : Idx → Val) (
       exact hdc)
     i hi
   simpa using this
+
+end GlueVerif.Lemmas.C10
+
+namespace GlueVerif.Lemmas.C10
+open GlueVerif.ArrayUtil GlueVerif.Stats
+
+theorem implStat_chunked_eq_direct (cfg : Cfg) (sh : List Nat) (data : Idx → Val) (sel : SelM)
+    (red : List Bool) (nmax i : Nat) (hpos : ∀ s ∈ sh, 0 < s) (hl : red.length = sh.length)
+    (hns : sel.isSlice = false) (hcnt : (red.filter id).length + 1 = sh.length)
+    (hred0 : 0 < (red.filter id).length) (hsize : nmax < prod sh)
+    (hi : i < sh.getD (firstKept red) 0) :
+    (implStat cfg sh data sel .none (fullView sh) .tuple red nmax).cell [i] =
+      (implDirect cfg data sel .none (fullView sh) red).cell [i] := by
+  rw [implStat_chunked_cell cfg sh data sel red nmax i hpos hl hns hcnt hred0 hsize hi]
+  have hone : oneKept red = true := oneKept_of_count red (by omega)
+  obtain ⟨_, _, f3, _, _, _, _, _⟩ := chunk_facts red sh 0 1 hone hl hpos (by omega) (by omega)
+  rw [direct_full cfg sh data sel red [i] hns hl hpos (by rw [f3]; simpa [inRange] using hi)]
+
+theorem implStat_chunked_shape (cfg : Cfg) (sh : List Nat) (data : Idx → Val) (sel : SelM)
+    (red : List Bool) (nmax : Nat) (hpos : ∀ s ∈ sh, 0 < s) (hl : red.length = sh.length)
+    (hns : sel.isSlice = false) (hcnt : (red.filter id).length + 1 = sh.length)
+    (hred0 : 0 < (red.filter id).length) (hsize : nmax < prod sh) :
+    (implStat cfg sh data sel .none (fullView sh) .tuple red nmax).shape = keptShape red sh := by
+  have hone : oneKept red = true := oneKept_of_count red (by omega)
+  have hh : 0 < sh.getD (firstKept red) 0 := by
+    have : firstKept red < sh.length := by
+      -- the kept axis exists
+      have : ∀ (r : List Bool), oneKept r = true → firstKept r < r.length := by
+        intro r
+        induction r with
+        | nil => intro h; simp [oneKept] at h
+        | cons x xs ih =>
+          intro h
+          cases x with
+          | true => simp only [oneKept] at h; simp only [firstKept, List.length_cons]; have := ih h; omega
+          | false => simp [firstKept]
+      have := this red hone
+      omega
+    have hm : sh.getD (firstKept red) 0 ∈ sh := by
+      rw [List.getD_eq_getElem?_getD, List.getElem?_eq_getElem this]
+      simp
+    exact hpos _ hm
+  obtain ⟨_, _, f3, _, _, _, _, _⟩ := chunk_facts red sh 0 1 hone hl hpos (by omega) (by omega)
+  unfold implStat
+  have hcond : ((ViewKind.none == ViewKind.none) && (AxisKind.tuple == AxisKind.tuple) &&
+      decide ((red.filter id).length > 0) && ((red.filter id).length + 1 == sh.length) &&
+      decide (prod sh > nmax) && !sel.isSlice) = true := by
+    simp [hns, hred0, hcnt, hsize]
+  simp only [hcond, if_true]
+  rw [f3]
+
+
+theorem firstKept_lt : ∀ (r : List Bool), oneKept r = true → firstKept r < r.length := by
+  intro r
+  induction r with
+  | nil => intro h; simp [oneKept] at h
+  | cons x xs ih =>
+    intro h
+    cases x with
+    | true => simp only [oneKept] at h; simp only [firstKept, List.length_cons]; have := ih h; omega
+    | false => simp [firstKept]
+
+theorem kept_axis_facts (red : List Bool) (sh : List Nat) (hone : oneKept red = true)
+    (hl : red.length = sh.length) (hpos : ∀ s ∈ sh, 0 < s) :
+    firstKept red < sh.length ∧ 0 < sh.getD (firstKept red) 0 ∧
+      keptShape red sh = [sh.getD (firstKept red) 0] := by
+  have h1 : firstKept red < sh.length := by have := firstKept_lt red hone; omega
+  have h2 : 0 < sh.getD (firstKept red) 0 := by
+    have hm : sh.getD (firstKept red) 0 ∈ sh := by
+      rw [List.getD_eq_getElem?_getD, List.getElem?_eq_getElem h1]
+      simp
+    exact hpos _ hm
+  obtain ⟨_, _, f3, _, _, _, _, _⟩ := chunk_facts red sh 0 1 hone hl hpos (by omega) (by omega)
+  exact ⟨h1, h2, f3⟩
 
 end GlueVerif.Lemmas.C10
